@@ -839,3 +839,569 @@ Proof.
   - apply NoDup_filter; auto.
   - rewrite filter_In, negb_true_iff, Nat.eqb_neq. tauto.
 Qed.
+
+(* ------------------------------------------------------------------ one C3 object (f) *)
+Section Node.
+Variable B : nat -> list nat.
+Variable rk : nat -> nat.
+Hypothesis W : wf rk B.
+
+Lemma node_merge x (M : nat -> list nat) :
+  (forall b, In b (B x) -> Lin B b (M b)) ->
+  c3_merge ([[x]] ++ map M (B x) ++ [B x]) =
+  lift (option_map (cons x) (merge (map M (B x) ++ [B x]))).
+Proof.
+  intros HM. rewrite c3_merge_textbook.
+  - cbn [app]. rewrite merge_front; auto.
+    intros s Hs Hx. apply in_app_or in Hs. destruct Hs as [Hs|[<-|[]]].
+    + apply in_map_iff in Hs. destruct Hs as (b & <- & Hb).
+      destruct (HM b Hb) as (_ & _ & R & _). apply R in Hx.
+      pose proof (Reach_base_rank _ _ W _ _ _ Hb Hx). lia.
+    + destruct (W x) as [_ R]. specialize (R _ Hx). lia.
+  - cbn [app]. constructor; [constructor; [intros []|constructor]|].
+    apply Forall_app. split.
+    + apply Forall_forall. intros s Hs. apply in_map_iff in Hs. destruct Hs as (b & <- & Hb).
+      eapply Lin_NoDup; eauto.
+    + constructor; auto. destruct (W x); auto.
+Qed.
+
+(* the single-base short cut computes what the merge would compute; in general one C3 object
+   answers [x :: merge(orders of the bases, bases)] or falls back / raises when that fails *)
+Lemma c3_node_spec strict x (M : nat -> list nat) inc legacy :
+  (forall b, In b (B x) -> Lin B b (M b)) ->
+  c3_node strict x (B x) (map M (B x)) inc legacy =
+  match merge (map M (B x) ++ [B x]) with
+  | Some l' => ROk (x :: l') inc
+  | None => if strict then RRaise else ROk legacy true
+  end.
+Proof.
+  intros HM. pose proof (node_merge x M HM) as NM. unfold c3_node. unfold node in *.
+  destruct (B x) as [|b1 [|b2 r]] eqn:E; cbn [map] in *.
+  - rewrite NM. destruct (merge ([] ++ [[]])); reflexivity.
+  - destruct (HM b1 (or_introl eq_refl)) as ([t Ht] & N & _). rewrite Ht in *.
+    cbn [app]. rewrite merge_single; auto.
+  - rewrite NM. destruct (merge ((M b1 :: M b2 :: map M r) ++ [b1 :: b2 :: r])); reflexivity.
+Qed.
+End Node.
+
+(* ------------------------------------------------------------------ the resolver *)
+Definition mro_of (r : rres) : list nat := match r with ROk m _ => m | _ => [] end.
+Definition inc_of (r : rres) : bool := match r with ROk _ i => i | _ => false end.
+
+Lemma collect_map (R : nat -> rres) bs :
+  (forall b, In b bs -> exists m i, R b = ROk m i) ->
+  collect (map R bs) = inl (map (fun b => mro_of (R b)) bs, existsb (fun b => inc_of (R b)) bs).
+Proof.
+  induction bs as [|b r IH]; intros H; cbn; auto.
+  destruct (H b (or_introl eq_refl)) as (m & i & E). rewrite E. cbn.
+  rewrite IH; auto. intros b' Hb'. apply H; cbn; auto.
+Qed.
+
+Lemma collect_raise (R : nat -> rres) bs :
+  (forall b, In b bs -> R b = RRaise \/ exists m i, R b = ROk m i) ->
+  (exists b, In b bs /\ R b = RRaise) -> collect (map R bs) = inr RRaise.
+Proof.
+  induction bs as [|b r IH]; intros H (b0 & Hb0 & E0); [destruct Hb0|]. cbn.
+  destruct (H b (or_introl eq_refl)) as [E|(m & i & E)]; rewrite E; auto.
+  rewrite IH; auto.
+  - intros b' Hb'. apply H; cbn; auto.
+  - destruct Hb0 as [<-|Hb0]; [congruence|eauto].
+Qed.
+
+Lemma all_some_has_none (F : nat -> option (list nat)) bs b :
+  In b bs -> F b = None -> all_some (map F bs) = None.
+Proof.
+  induction bs as [|h r IH]; cbn; [tauto|]. intros [->|Hb] E.
+  - rewrite E; auto.
+  - destruct (F h); auto. rewrite IH; auto.
+Qed.
+
+Section Resolver.
+Variable g : graph.
+Variable rk : nat -> nat.
+Hypothesis W : wf rk (bases g).
+Let B := bases g.
+
+Lemma resolve_S strict f x : resolve strict (S f) g x =
+  match collect (map (resolve strict f g) (bases g x)) with
+  | inl (ms, is) => c3_node strict x (bases g x) ms is (legacy_ro (S f) g x)
+  | inr r => r
+  end.
+Proof. reflexivity. Qed.
+
+(* non-strict: always an order, always a valid linearization; the flag is clear exactly when the
+   textbook C3 linearization exists, and then the order is that linearization *)
+Lemma resolve_nonstrict f : forall x, rk x < f ->
+  exists m i, resolve false f g x = ROk m i /\ Lin B x m /\
+              (if i then c3_lin B f x = None else c3_lin B f x = Some m).
+Proof.
+  induction f as [|f IH]; intros x H; [lia|].
+  set (R := resolve false f g). set (M := fun b => mro_of (R b)). set (I := fun b => inc_of (R b)).
+  assert (HB : forall b, In b (B x) -> R b = ROk (M b) (I b) /\ Lin B b (M b) /\
+                 (if I b then c3_lin B f b = None else c3_lin B f b = Some (M b))).
+  { intros b Hb. destruct (W x) as [_ Rk]. specialize (Rk _ Hb).
+    destruct (IH b) as (m & i & E & L & C); [lia|]. unfold M, I, R. rewrite E. cbn. auto. }
+  rewrite resolve_S. fold R. rewrite collect_map by (intros b Hb; destruct (HB b Hb) as (E & _); eauto).
+  change (fun b : nat => mro_of (R b)) with M. change (fun b : nat => inc_of (R b)) with I.
+  fold B. rewrite (c3_node_spec B rk W) by (intros b Hb; apply HB; auto).
+  rewrite c3_lin_S. fold B. unfold node in *.
+  destruct (existsb I (B x)) eqn:EI.
+  - (* some base is inconsistent *)
+    apply existsb_exists in EI. destruct EI as (b & Hb & Ib).
+    destruct (HB b Hb) as (_ & _ & C). rewrite Ib in C.
+    rewrite (all_some_has_none _ _ _ Hb C).
+    destruct (merge (map M (B x) ++ [B x])) as [l'|] eqn:Mg.
+    + exists (x :: l'), true. split; auto. split; auto.
+      eapply merge_lin; eauto. intros b' Hb'. apply HB; auto.
+    + exists (legacy_ro (S f) g x), true. split; auto. split; auto. apply (legacy_lin g rk W); auto.
+  - assert (AS : all_some (map (c3_lin B f) (B x)) = Some (map M (B x))).
+    { rewrite all_some_all.
+      - f_equal. apply map_ext_in. intros b Hb. destruct (HB b Hb) as (_ & _ & C).
+        assert (Ib : I b = false).
+        { destruct (I b) eqn:Ib; auto.
+          assert (existsb I (B x) = true) by (apply existsb_exists; eauto). congruence. }
+        rewrite Ib in C. unfold unwrap. rewrite C. auto.
+      - intros b Hb. destruct (HB b Hb) as (_ & _ & C).
+        assert (Ib : I b = false).
+        { destruct (I b) eqn:Ib; auto.
+          assert (existsb I (B x) = true) by (apply existsb_exists; eauto). congruence. }
+        rewrite Ib in C. congruence. }
+    rewrite AS.
+    destruct (merge (map M (B x) ++ [B x])) as [l'|] eqn:Mg.
+    + exists (x :: l'), false. split; auto. split; auto.
+      eapply merge_lin; eauto. intros b' Hb'. apply HB; auto.
+    + exists (legacy_ro (S f) g x), true. split; auto. split; auto. apply (legacy_lin g rk W); auto.
+Qed.
+
+(* strict: the C3 linearization, or the error when there is none *)
+Lemma resolve_strict f : forall x, rk x < f ->
+  resolve true f g x = match c3_lin B f x with Some l => ROk l false | None => RRaise end.
+Proof.
+  induction f as [|f IH]; intros x H; [lia|].
+  set (R := resolve true f g).
+  assert (HB : forall b, In b (B x) ->
+                 R b = match c3_lin B f b with Some l => ROk l false | None => RRaise end).
+  { intros b Hb. destruct (W x) as [_ Rk]. specialize (Rk _ Hb). apply IH. lia. }
+  rewrite resolve_S, c3_lin_S. fold R. fold B. unfold node in *.
+  destruct (all_some (map (c3_lin B f) (B x))) as [ls|] eqn:AS.
+  - apply all_some_map in AS. destruct AS as [-> AS].
+    rewrite collect_map.
+    2:{ intros b Hb. rewrite (HB b Hb), (AS b Hb). eauto. }
+    assert (E1 : map (fun b => mro_of (R b)) (B x) = map (unwrap (c3_lin B f)) (B x)).
+    { apply map_ext_in. intros b Hb. rewrite (HB b Hb), (AS b Hb). reflexivity. }
+    assert (E2 : existsb (fun b => inc_of (R b)) (B x) = false).
+    { apply not_true_is_false. intros E. apply existsb_exists in E. destruct E as (b & Hb & E).
+      rewrite (HB b Hb), (AS b Hb) in E. discriminate. }
+    rewrite E1, E2.
+    rewrite (c3_node_spec B rk W).
+    + destruct (merge (map (unwrap (c3_lin B f)) (B x) ++ [B x])); reflexivity.
+    + intros b Hb. apply (c3_lin_lin B rk W f). apply AS; auto.
+  - apply all_some_none in AS. rewrite collect_raise; auto.
+    intros b Hb. rewrite (HB b Hb). destruct (c3_lin B f b); eauto.
+    destruct AS as (b & Hb & E). exists b; split; auto. rewrite (HB b Hb), E. auto.
+Qed.
+
+Lemma resolve_eq_c3 strict f x l : rk x < f -> c3_lin B f x = Some l ->
+  resolve strict f g x = ROk l false.
+Proof.
+  intros H C. destruct strict.
+  - rewrite resolve_strict, C; auto.
+  - destruct (resolve_nonstrict f x H) as (m & i & E & _ & Ci). destruct i; congruence.
+Qed.
+End Resolver.
+
+(* ------------------------------------------------------------------ __sro__ (rooted hierarchy) *)
+Section Sro.
+Variable g : graph.
+Variable rk : nat -> nat.
+Variable root : nat.
+Hypothesis W : wf rk (bases g).
+Hypothesis R0 : bases g root = [].
+Let B := bases g.
+Let Br := rooted root (bases g).
+Definition rk_rooted (x : nat) : nat := if Nat.eqb x root then 0 else S (rk x).
+
+Lemma Br_root : Br root = [].
+Proof. unfold Br, rooted. rewrite Nat.eqb_refl. auto. Qed.
+
+Lemma Br_nonroot x : x <> root -> Br x = match B x with [] => [root] | bs => bs end.
+Proof. intros N. unfold Br, rooted. apply Nat.eqb_neq in N. rewrite N. auto. Qed.
+
+Lemma Br_nonempty x : x <> root -> Br x <> [].
+Proof. intros N. rewrite Br_nonroot by auto. destruct (B x); discriminate. Qed.
+
+Lemma Br_bases x : B x <> [] -> Br x = B x.
+Proof.
+  intros N. assert (x <> root) by (intros ->; unfold B in N; rewrite R0 in N; congruence).
+  rewrite Br_nonroot by auto. destruct (B x); congruence.
+Qed.
+
+Lemma Br_in x b : In b (Br x) -> b = root \/ In b (B x).
+Proof.
+  destruct (Nat.eq_dec x root) as [->|N]; [rewrite Br_root; intros []|].
+  rewrite Br_nonroot by auto. destruct (B x); cbn; intuition.
+Qed.
+
+Lemma B_in_Br x b : In b (B x) -> In b (Br x).
+Proof. intros H. rewrite Br_bases; auto. intros E. rewrite E in H. destruct H. Qed.
+
+Lemma wf_rooted : wf rk_rooted Br.
+Proof.
+  intros x. destruct (Nat.eq_dec x root) as [->|N].
+  - rewrite Br_root. split; [constructor|intros b []].
+  - rewrite Br_nonroot by auto. unfold rk_rooted. apply Nat.eqb_neq in N. rewrite N.
+    destruct (W x) as [ND Rk]. fold B in ND, Rk. destruct (B x) as [|b1 r].
+    + split; [constructor; [intros []|constructor]|]. intros b [<-|[]]. rewrite Nat.eqb_refl. lia.
+    + split; auto. intros b Hb. specialize (Rk b Hb). destruct (Nat.eqb b root); lia.
+Qed.
+
+Lemma Reach_root_only y : Reach Br root y -> y = root.
+Proof. inversion 1; auto. rewrite Br_root in H0. destruct H0. Qed.
+
+Lemma reach_root n : forall x, rk x < n -> Reach Br x root.
+Proof.
+  induction n as [|n IH]; intros x H; [lia|].
+  destruct (Nat.eq_dec x root) as [->|N]; [constructor|].
+  pose proof (Br_nonempty x N) as NE. destruct (Br x) as [|b r] eqn:E; [congruence|].
+  assert (Hb : In b (Br x)) by (rewrite E; cbn; auto).
+  destruct (Br_in _ _ Hb) as [->|Hb'].
+  - econstructor; eauto. constructor.
+  - destruct (W x) as [_ Rk]. specialize (Rk _ Hb'). econstructor; eauto. apply IH. lia.
+Qed.
+
+Lemma Reach_rooted x y : x <> root -> (Reach Br x y <-> Reach B x y \/ y = root).
+Proof.
+  intros N. split.
+  - intros H. revert N. induction H; intros N; [left; constructor|].
+    destruct (Nat.eq_dec b root) as [->|Nb].
+    + right. apply Reach_root_only; auto.
+    + destruct (IHReach Nb) as [Hr|Hr]; auto. left.
+      destruct (Br_in _ _ H) as [->|Hb]; [congruence|]. econstructor; eauto.
+  - intros [H| ->].
+    + clear N. induction H; [constructor|]. econstructor; eauto. apply B_in_Br; auto.
+    + apply (reach_root (S (rk x))). lia.
+Qed.
+
+(* in the rooted hierarchy every linearization ends with the root *)
+Lemma lin_rooted_last x l : Lin Br x l -> exists l', l = l' ++ [root].
+Proof.
+  intros ([t Ht] & ND & MEM & ORD).
+  assert (NE : l <> []) by (rewrite Ht; discriminate).
+  destruct (exists_last NE) as (l' & z & ->). exists l'.
+  destruct (Nat.eq_dec z root) as [->|N]; auto. exfalso.
+  pose proof (Br_nonempty z N) as NB. destruct (Br z) as [|b r] eqn:E; [congruence|].
+  assert (Hz : In z (l' ++ [z])) by (apply in_or_app; right; cbn; auto).
+  assert (Hb : In b (Br z)) by (rewrite E; cbn; auto).
+  specialize (ORD z b Hz Hb). apply Before_Subseq in ORD. apply Subseq_last_notin in ORD.
+  apply NoDup_remove_2 in ND. rewrite app_nil_r in ND. auto.
+Qed.
+
+(* "a linearization of the rooted hierarchy, the root's own position ignored" *)
+Definition QLin (x : nat) (m : list nat) : Prop :=
+  (exists t, m = x :: t) /\ NoDup m /\
+  (forall y, In y m \/ y = root <-> Reach Br x y) /\
+  (forall y b, In y m -> In b (Br y) -> b <> root -> Before m y b).
+
+Lemma Lin_Br_QLin x m : Lin Br x m -> QLin x m.
+Proof.
+  intros (HD & ND & MEM & ORD). split; auto. split; auto. split; auto.
+  intros y. rewrite MEM. split; [|auto]. intros [H| ->]; auto.
+  destruct (Nat.eq_dec x root) as [->|N]; [constructor|]. apply Reach_rooted; auto.
+Qed.
+
+Lemma Lin_B_QLin x m : x <> root -> Lin B x m -> QLin x m.
+Proof.
+  intros N (HD & ND & MEM & ORD). split; auto. split; auto. split.
+  - intros y. rewrite MEM. symmetry. apply Reach_rooted; auto.
+  - intros y b Hy Hb Nb. apply ORD; auto. destruct (Br_in _ _ Hb); [congruence|auto].
+Qed.
+
+Lemma filter_not_root_In y l : In y (filter (not_root root) l) <-> In y l /\ y <> root.
+Proof. rewrite filter_In. unfold not_root. rewrite negb_true_iff, Nat.eqb_neq. tauto. Qed.
+
+Lemma root_last_lin x m : x <> root -> QLin x m -> Lin Br x (root_last root m).
+Proof.
+  intros N ([t Ht] & ND & MEM & ORD).
+  assert (NE : m <> []) by (rewrite Ht; discriminate).
+  assert (NR : forall y b, In b (Br y) -> y <> root).
+  { intros y b Hb ->. rewrite Br_root in Hb. destruct Hb. }
+  destruct (last_is root m) eqn:LI.
+  - apply last_is_true in LI. destruct LI as [l' El]. rewrite El, root_last_id. rewrite <- El.
+    split; [eauto|]. split; auto. split.
+    + intros y. rewrite <- MEM. split; auto. intros [H| ->]; auto.
+      rewrite El. apply in_or_app; right; cbn; auto.
+    + intros y b Hy Hb. destruct (Nat.eq_dec b root) as [->|Nb]; [|apply ORD; auto].
+      pose proof (NR _ _ Hb) as Ny. rewrite El in Hy |- *.
+      apply in_app_or in Hy. destruct Hy as [Hy|[Hy|[]]]; [|congruence].
+      apply in_split in Hy. destruct Hy as (l1 & l2 & ->).
+      exists l1, l2, []. rewrite <- !app_assoc. reflexivity.
+  - assert (E : root_last root m = filter (not_root root) m ++ [root]).
+    { unfold root_last. rewrite LI. destruct m; [congruence|reflexivity]. }
+    rewrite E. split; [|split; [|split]].
+    + rewrite Ht. cbn. unfold not_root at 1. apply Nat.eqb_neq in N. rewrite N. cbn. eauto.
+    + apply NoDup_snoc; [apply NoDup_filter; auto|]. rewrite filter_not_root_In. tauto.
+    + intros y. rewrite <- MEM, in_app_iff, filter_not_root_In. cbn [In].
+      destruct (Nat.eq_dec y root); intuition.
+    + intros y b Hy Hb. pose proof (NR _ _ Hb) as Ny.
+      apply in_app_or in Hy. destruct Hy as [Hy|[Hy|[]]]; [|congruence].
+      destruct (Nat.eq_dec b root) as [->|Nb].
+      * apply in_split in Hy. destruct Hy as (l1 & l2 & ->).
+        exists l1, l2, []. rewrite <- !app_assoc. reflexivity.
+      * apply filter_not_root_In in Hy. destruct Hy as [Hy _].
+        specialize (ORD y b Hy Hb Nb). apply Before_Subseq in ORD. apply Before_Subseq.
+        apply Subseq_app_r.
+        apply (Subseq_filter (not_root root)) in ORD. cbn [filter] in ORD. unfold not_root at 1 2 in ORD.
+        apply Nat.eqb_neq in Ny, Nb. rewrite Ny, Nb in ORD. exact ORD.
+Qed.
+
+Lemma fresh_sro_S f x : fresh_sro (S f) root g x =
+  match calc_sro false root (S f) g (fresh_sro f root g) x with ROk m _ => m | _ => [] end.
+Proof. reflexivity. Qed.
+
+(* every __sro__ is a valid linearization of the rooted hierarchy (consistent or not) *)
+Lemma fresh_sro_lin f : forall x, rk x < f -> Lin Br x (fresh_sro f root g x).
+Proof.
+  induction f as [|f IH]; intros x H; [lia|]. rewrite fresh_sro_S. unfold calc_sro.
+  destruct (Nat.eqb x root) eqn:Ex.
+  - apply Nat.eqb_eq in Ex. subst. split; [eauto|]. split; [constructor; [intros []|constructor]|].
+    split.
+    + intros y. split.
+      * intros [<-|[]]. constructor.
+      * intros Hr. apply Reach_root_only in Hr. cbn; auto.
+    + intros y b [<-|[]]. rewrite Br_root. intros [].
+  - apply Nat.eqb_neq in Ex. set (M := fresh_sro f root g).
+    assert (HM : forall b, In b (B x) -> Lin Br b (M b)).
+    { intros b Hb. destruct (W x) as [_ Rk]. specialize (Rk _ Hb). apply IH. lia. }
+    fold B. destruct (B x) as [|b1 r] eqn:EB.
+    + (* no declared base: [x] then the root appended *)
+      assert (E : c3_node false x [] (map M []) false (legacy_ro (S f) g x) = ROk [x] false).
+      { unfold c3_node. cbn [map]. rewrite c3_merge_textbook.
+        - cbn [app]. rewrite merge_front by (intros s [<-|[]] []). reflexivity.
+        - repeat constructor; intros []. }
+      rewrite E. apply root_last_lin; auto. split; [eauto|].
+      split; [constructor; [intros []|constructor]|]. split.
+      * intros y. rewrite Reach_rooted by auto. split.
+        -- intros [[<-|[]]| ->]; auto. left; constructor.
+        -- intros [Hr| ->]; auto. inversion Hr; subst; cbn; auto.
+           fold B in H0. rewrite EB in H0. destruct H0.
+      * intros y b [<-|[]] Hb Nb. rewrite Br_nonroot, EB in Hb by auto.
+        destruct Hb as [<-|[]]. congruence.
+    + assert (EBr : Br x = B x) by (apply Br_bases; rewrite EB; discriminate).
+      rewrite <- EB in HM |- *. rewrite <- EBr.
+      rewrite (c3_node_spec Br rk_rooted wf_rooted) by (intros b Hb; apply HM; rewrite <- EBr; auto).
+      unfold node in *.
+      destruct (merge (map M (Br x) ++ [Br x])) as [l'|] eqn:Mg.
+      * apply root_last_lin; auto. apply Lin_Br_QLin.
+        eapply (merge_lin Br rk_rooted wf_rooted); eauto.
+        intros b Hb; apply HM; rewrite <- EBr; auto.
+      * apply root_last_lin; auto. apply Lin_B_QLin; auto. apply (legacy_lin g rk W); auto.
+Qed.
+
+Lemma fresh_sro_valid f x : rk x < f -> ValidLin Br root x (fresh_sro f root g x).
+Proof.
+  intros H. pose proof (fresh_sro_lin f x H) as L. split; auto. eapply lin_rooted_last; eauto.
+Qed.
+
+(* whenever the rooted hierarchy has a C3 linearization, __sro__ is that linearization *)
+Lemma fresh_sro_eq_c3 f : forall x f' l, rk x < f -> c3_lin Br f' x = Some l ->
+  fresh_sro f root g x = l.
+Proof.
+  induction f as [|f IH]; intros x f' l H C; [lia|].
+  destruct f' as [|f']; [discriminate|]. rewrite (c3_lin_S Br) in C.
+  rewrite fresh_sro_S. unfold calc_sro.
+  destruct (Nat.eqb x root) eqn:Ex.
+  - apply Nat.eqb_eq in Ex. subst. rewrite Br_root in C. cbn in C. inversion C; reflexivity.
+  - apply Nat.eqb_neq in Ex. set (M := fresh_sro f root g).
+    destruct (all_some (map (c3_lin Br f') (Br x))) as [ls|] eqn:AS; [|discriminate].
+    apply all_some_map in AS. destruct AS as [-> AS].
+    destruct (merge (map (unwrap (c3_lin Br f')) (Br x) ++ [Br x])) as [l'|] eqn:Mg; [|discriminate].
+    inversion C; subst; clear C.
+    fold B. destruct (B x) as [|b1 r] eqn:EB.
+    + assert (E : c3_node false x [] (map M []) false (legacy_ro (S f) g x) = ROk [x] false).
+      { unfold c3_node. cbn [map]. rewrite c3_merge_textbook.
+        - cbn [app]. rewrite merge_front by (intros s [<-|[]] []). reflexivity.
+        - repeat constructor; intros []. }
+      rewrite E. rewrite Br_nonroot, EB in Mg, AS by auto.
+      assert (Cr : c3_lin Br f' root = Some [root]).
+      { specialize (AS root (or_introl eq_refl)). destruct f' as [|f'']; [discriminate|].
+        rewrite (c3_lin_S Br), Br_root. reflexivity. }
+      cbn [map app] in Mg. unfold unwrap in Mg. rewrite Cr in Mg.
+      rewrite merge_single in Mg by (constructor; [intros []|constructor]).
+      inversion Mg; subst. unfold root_last, last_is. cbn.
+      apply Nat.eqb_neq in Ex. rewrite Ex. reflexivity.
+    + assert (EBr : Br x = B x) by (apply Br_bases; rewrite EB; discriminate).
+      assert (EM : map M (Br x) = map (unwrap (c3_lin Br f')) (Br x)).
+      { apply map_ext_in. intros b Hb. rewrite EBr in Hb. destruct (W x) as [_ Rk].
+        specialize (Rk _ Hb). eapply IH; [lia|]. apply AS. rewrite EBr; auto. }
+      rewrite <- EB. rewrite <- EBr.
+      rewrite (c3_node_spec Br rk_rooted wf_rooted).
+      * unfold node in *. rewrite EM, Mg.
+        assert (L : Lin Br x (x :: l')).
+        { eapply (merge_lin Br rk_rooted wf_rooted); eauto. intros b Hb.
+          apply (c3_lin_lin Br rk_rooted wf_rooted f'). apply AS; auto. }
+        destruct (lin_rooted_last _ _ L) as [l0 ->]. apply root_last_id.
+      * intros b Hb. rewrite EBr in Hb. destruct (W x) as [_ Rk]. specialize (Rk _ Hb).
+        apply fresh_sro_lin. lia.
+Qed.
+End Sro.
+
+(* ------------------------------------------------------------------ boolean well-formedness *)
+Lemma wfb_wf rk g : wfb rk g = true -> wf rk (bases g).
+Proof.
+  induction g as [|[y bs] g IH]; cbn [wfb forallb fst snd bases]; intros H x.
+  - split; [constructor|intros b []].
+  - apply andb_true_iff in H. destruct H as [H1 H2]. apply andb_true_iff in H1. destruct H1 as [N R].
+    destruct (Nat.eqb x y) eqn:E.
+    + apply Nat.eqb_eq in E. subst. split; [apply nodup_b_NoDup; auto|].
+      intros b Hb. rewrite forallb_forall in R. apply Nat.ltb_lt. apply R; auto.
+    + apply (IH H2 x).
+Qed.
+
+(* ------------------------------------------------------------------ statements used by Properties/C03.v *)
+Lemma merge_eq_textbook_thm seqs : Forall (@NoDup nat) seqs ->
+  c3_merge seqs = match merge seqs with Some l => MOk l | None => MBad end.
+Proof. apply c3_merge_textbook. Qed.
+
+Lemma ro_eq_c3_thm rk g x fuel l : wfb rk g = true -> rk x < fuel ->
+  c3_lin (bases g) fuel x = Some l -> forall strict, ro strict false fuel g x = ROk l false.
+Proof.
+  intros W H C strict. unfold ro. rewrite (resolve_eq_c3 g rk (wfb_wf _ _ W) strict fuel x l); auto.
+Qed.
+
+Lemma strict_raises_iff_thm rk g x fuel : wfb rk g = true -> rk x < fuel -> forall use_legacy,
+  (ro true use_legacy fuel g x = RRaise <-> c3_lin (bases g) fuel x = None).
+Proof.
+  intros W H ul. unfold ro. rewrite (resolve_strict g rk (wfb_wf _ _ W)); auto.
+  destruct (c3_lin (bases g) fuel x); destruct ul; split; congruence.
+Qed.
+
+Lemma is_consistent_iff_thm rk g x fuel : wfb rk g = true -> rk x < fuel ->
+  exists b, is_consistent fuel g x = Some b /\
+            (b = true <-> exists l, c3_lin (bases g) fuel x = Some l).
+Proof.
+  intros W H. unfold is_consistent.
+  destruct (resolve_nonstrict g rk (wfb_wf _ _ W) fuel x H) as (m & i & E & _ & C).
+  rewrite E. exists (negb i). split; auto. destruct i; cbn.
+  - split; [discriminate|]. intros [l Hl]. congruence.
+  - split; eauto.
+Qed.
+
+Lemma ro_valid_thm rk g x fuel : wfb rk g = true -> rk x < fuel ->
+  exists m i, ro false false fuel g x = ROk m i /\ Lin (bases g) x m.
+Proof.
+  intros W H. unfold ro.
+  destruct (resolve_nonstrict g rk (wfb_wf _ _ W) fuel x H) as (m & i & E & L & _).
+  rewrite E. eauto.
+Qed.
+
+Lemma legacy_valid_thm rk g x fuel : wfb rk g = true -> rk x < fuel ->
+  Lin (bases g) x (legacy_ro fuel g x) /\
+  exists i, ro false true fuel g x = ROk (legacy_ro fuel g x) i.
+Proof.
+  intros W H. split; [apply (legacy_lin g rk (wfb_wf _ _ W)); auto|]. unfold ro.
+  destruct (resolve_nonstrict g rk (wfb_wf _ _ W) fuel x H) as (m & i & E & _).
+  rewrite E. eauto.
+Qed.
+
+Lemma sro_valid_thm rk g root x fuel : wfb rk g = true -> bases g root = [] -> rk x < fuel ->
+  ValidLin (rooted root (bases g)) root x (fresh_sro fuel root g x).
+Proof. intros W R H. apply (fresh_sro_valid g rk root (wfb_wf _ _ W) R); auto. Qed.
+
+Lemma sro_eq_c3_rooted_thm rk g root x fuel fuel' l :
+  wfb rk g = true -> bases g root = [] -> rk x < fuel ->
+  c3_lin (rooted root (bases g)) fuel' x = Some l -> fresh_sro fuel root g x = l.
+Proof. intros W R H C. eapply (fresh_sro_eq_c3 g rk root (wfb_wf _ _ W) R); eauto. Qed.
+
+Lemma root_last_thm root l :
+  (l <> [] -> exists l', root_last root l = l' ++ [root]) /\
+  filter (fun y => negb (Nat.eqb y root)) (root_last root l) = filter (fun y => negb (Nat.eqb y root)) l /\
+  (forall l', l = l' ++ [root] -> root_last root l = l) /\
+  (NoDup l -> NoDup (root_last root l)) /\
+  (l <> [] -> forall y, In y (root_last root l) <-> In y l \/ y = root).
+Proof.
+  split; [apply root_last_ends|]. split; [apply (root_last_others root l)|].
+  split; [intros l' ->; apply root_last_id|]. split; [apply root_last_NoDup|].
+  intros N y. apply root_last_In; auto.
+Qed.
+
+Lemma single_base_shortcut_thm strict x b t inc legacy :
+  NoDup (b :: t) -> ~ In x (b :: t) ->
+  c3_merge ([[x]] ++ [b :: t] ++ [[b]]) = MOk (x :: b :: t) /\
+  c3_node strict x [b] [b :: t] inc legacy = ROk (x :: b :: t) inc.
+Proof.
+  intros N X. split; [|reflexivity]. rewrite c3_merge_textbook.
+  - cbn [app]. rewrite merge_front.
+    + rewrite merge_single; auto.
+    + intros s [<-|[<-|[]]]; auto. intros [<-|[]]. apply X; cbn; auto.
+  - cbn [app]. repeat constructor; auto; try (intros []). inversion N; auto. inversion N; auto.
+Qed.
+
+Lemma iro_is_filter_thm (k : nat -> bool) sro : NoDup sro ->
+  NoDup (iro_of k sro) /\ Subseq (iro_of k sro) sro /\
+  forall y, In y (iro_of k sro) <-> In y sro /\ k y = true.
+Proof.
+  intros N. unfold iro_of. split; [apply NoDup_filter; auto|]. split; [apply filter_Subseq|].
+  intros y. apply filter_In.
+Qed.
+
+(* ------------------------------------------------------------------ the executable oracle is sound *)
+Section Oracle.
+Variable B : nat -> list nat.
+Variable rk : nat -> nat.
+Hypothesis W : wf rk B.
+
+Lemma reach_list_In f : forall x y, rk x < f -> (In y (reach_list B f x) <-> Reach B x y).
+Proof.
+  induction f as [|f IH]; intros x y H; [lia|]. cbn. split.
+  - intros [<-|Hy]; [constructor|]. apply in_flat_map in Hy. destruct Hy as (b & Hb & Hy).
+    destruct (W x) as [_ R]. specialize (R _ Hb). apply IH in Hy; [|lia]. econstructor; eauto.
+  - intros Hr. apply (Reach_inv B) in Hr. destruct Hr as [->|(b & Hb & Hr)]; auto. right.
+    apply in_flat_map. exists b; split; auto. destruct (W x) as [_ R]. specialize (R _ Hb).
+    apply IH; auto. lia.
+Qed.
+
+Lemma index_of_split x l i : index_of x l = Some i ->
+  exists l1 l2, l = l1 ++ x :: l2 /\ length l1 = i.
+Proof.
+  revert i. induction l as [|h t IH]; cbn; intros i H; [discriminate|].
+  destruct (Nat.eqb x h) eqn:E.
+  - apply Nat.eqb_eq in E. inversion H; subst. exists [], t; auto.
+  - destruct (index_of x t) as [j|]; [|discriminate]. inversion H; subst.
+    destruct (IH _ eq_refl) as (l1 & l2 & -> & L). exists (h :: l1), l2; cbn; auto.
+Qed.
+
+Lemma beforeb_Before l a b : beforeb l a b = true -> Before l a b.
+Proof.
+  unfold beforeb. destruct (index_of a l) as [i|] eqn:Ea; [|discriminate].
+  destruct (index_of b l) as [j|] eqn:Eb; [|discriminate]. intros H. apply Nat.ltb_lt in H.
+  destruct (index_of_split _ _ _ Ea) as (l1 & l2 & -> & L1).
+  clear Ea. revert j Eb H. subst i. induction l1 as [|h t IH]; cbn; intros j Eb H.
+  - destruct (Nat.eqb b a) eqn:E; [inversion Eb; subst; lia|].
+    destruct (index_of b l2) as [k|] eqn:Ek; [|discriminate].
+    destruct (index_of_split _ _ _ Ek) as (m1 & m2 & -> & _). exists [], m1, m2; auto.
+  - destruct (Nat.eqb b h) eqn:E; [inversion Eb; subst; lia|].
+    destruct (index_of b (t ++ a :: l2)) as [k|] eqn:Ek; [|discriminate]. inversion Eb; subst.
+    destruct (IH k eq_refl) as (m1 & m2 & m3 & Em); [lia|].
+    exists (h :: m1), m2, m3. cbn. rewrite Em. auto.
+Qed.
+
+Lemma linb_sound f x l : rk x < f -> linb B f x l = true -> Lin B x l.
+Proof.
+  intros H. unfold linb. destruct l as [|h t]; [discriminate|].
+  rewrite !andb_true_iff. intros [[[Hh Hn] [H1 H2]] Ho].
+  apply Nat.eqb_eq in Hh. subst h. split; [eauto|]. split; [apply nodupb_NoDup; auto|].
+  rewrite forallb_forall in H1, H2, Ho. split.
+  - intros y. rewrite <- (reach_list_In f x y H). split; intros Hy.
+    + apply memb_In. apply H1; auto.
+    + apply memb_In. apply H2; auto.
+  - intros y b Hy Hb. specialize (Ho y Hy). rewrite forallb_forall in Ho.
+    apply beforeb_Before. apply Ho; auto.
+Qed.
+
+Lemma valid_linb_sound f root x l : rk x < f -> valid_linb B f root x l = true -> ValidLin B root x l.
+Proof.
+  intros H. unfold valid_linb. rewrite andb_true_iff. intros [L E]. split; [eapply linb_sound; eauto|].
+  destruct (rev l) as [|z r] eqn:Er; [discriminate|]. apply Nat.eqb_eq in E. subst.
+  exists (rev r). rewrite <- (rev_involutive l), Er. reflexivity.
+Qed.
+End Oracle.
